@@ -349,10 +349,19 @@ fn master(manifest: &str, seeds: &[Seed], muts: &[Mutant], budget: usize, tier: 
     }
     if workers_ok != nw || done != muts.len() { println!("HARNESS-ERROR\tworkers finished {}/{} with {} of {} mutants", workers_ok, nw, done, muts.len()); }
     res.sort_by_key(|r| r.0);
-    report(seeds, muts, &res, mode);
-    // the same mutants through the real binary: every failure class (first examples) and a random sample
     let release = mode.contains("release");
     let dir = work_dir("c16").join("exec"); let _ = std::fs::create_dir_all(&dir);
+    // a timeout has to reproduce through the real binary, alone, before it is reported
+    let mut dropped = 0;
+    res.retain(|(i, o)| {
+        if !o.class.contains("-timeout") { return true; }
+        let m = &muts[*i];
+        let o2 = run_one(&dir, &seeds[m.seed], &m.bytes, m.action, &m.opts, Some(release));
+        if o2.class.contains("-timeout") { true } else { dropped += 1; false }
+    });
+    if dropped > 0 { println!("NOTE\t{} timeouts under load did not reproduce through truth-cli and were dropped", dropped); }
+    report(seeds, muts, &res, mode);
+    // the same mutants through the real binary: every failure class (first examples) and a random sample
     let mut per_class: BTreeMap<String, usize> = BTreeMap::new();
     let mut confirm: Vec<(usize, String)> = vec![];
     for (i, o) in &res { if !o.ok { let c = per_class.entry(o.class.clone()).or_insert(0); *c += 1; if *c <= 2 { confirm.push((*i, o.class.clone())); } } }
@@ -505,7 +514,7 @@ fn run_all_inproc(seeds: &[Seed], muts: Vec<Mutant>) {
             Ok(false) => Outcome { ok: true, class: "err".into(), detail: String::new(), rc: 1 },
             Err((site, msg, bt)) => Outcome { ok: false, class: panic_class("c16", &site, &msg, &bt), detail: format!("panicked at {}: {}", site, msg), rc: 101 },
         };
-        let o = if t0.elapsed() > Duration::from_secs(10) { Outcome { ok: false, class: format!("c16-timeout:{}:{}", seeds[m.seed].tool, m.action), detail: format!("{:?}", t0.elapsed()), rc: 124 } } else { o };
+        let o = if t0.elapsed() > Duration::from_secs(60) { Outcome { ok: false, class: format!("c16-timeout:{}:{}", seeds[m.seed].tool, m.action), detail: format!("{:?}", t0.elapsed()), rc: 124 } } else { o };
         if !o.ok || m.kind == "seed" { res.push((i, o)); }
     }
     report(seeds, &muts, &res, "inproc");
